@@ -153,11 +153,14 @@ Example C19_ex_run :
     posted st = [ex_valid; ex_valid2; ex_valid] /\
     delivered st = [ex_valid; ex_valid] /\
     queue st = [].
-Proof. eexists. repeat split. discriminate. Qed.
+Proof.
+  eexists. split; [vm_compute; reflexivity|].
+  vm_compute. repeat split. discriminate.
+Qed.
 
 Example C19_ex_valid : valid toy_keccak toy_ecrecover_ok ex_valid = true /\
   valid toy_keccak toy_ecrecover_ok ex_badhash = false /\ valid toy_keccak toy_ecrecover_ok ex_badsig = false.
-Proof. repeat split. Qed.
+Proof. repeat split; vm_compute; reflexivity. Qed.
 
 Example C19_ex_counts :
   forall st, run toy_keccak toy_ecrecover_ok 2 false ex_history = Some st ->
@@ -170,15 +173,15 @@ Example C19_ex_up :
   Forall (fun o => o <> ServiceUp false) [Submit 1 1 ex_valid; Forward; ServiceUp true] /\
   exists st, run toy_keccak toy_ecrecover_ok 2 false [Submit 1 1 ex_valid; Forward; ServiceUp true] = Some st /\
              delivered st = [ex_valid].
-Proof. split. repeat constructor; discriminate. eexists. split; reflexivity. Qed.
+Proof. split. repeat constructor; discriminate. eexists. split; vm_compute; reflexivity. Qed.
 
 (* the same history with a blocking enqueue stops at the submission that finds the queue full *)
 Example C19_ex_blocking : run toy_keccak toy_ecrecover_ok 2 true ex_history = None /\ has_empty ex_valid = false.
-Proof. split; reflexivity. Qed.
+Proof. split; vm_compute; reflexivity. Qed.
 
 (* Done and its three branches are inhabited *)
 Example C19_ex_cases :
   (exists st' e, submit 1 false init 1 5 ex_nohash = Done st' e /\ e_answers e = [AError 5 BadRequest]) /\
   (exists st' e, submit 1 false init 1 5 ex_valid = Done st' e /\ e_answers e = [AReceiptResponse 5]) /\
   (exists st' e, submit 0 false init 1 5 ex_valid = Done st' e /\ e_answers e = [AError 5 TooBusy]).
-Proof. repeat split; do 2 eexists; split; reflexivity. Qed.
+Proof. repeat split; do 2 eexists; split; vm_compute; reflexivity. Qed.
